@@ -31,8 +31,9 @@ Definition prop_case (inp obs : list Z) : Z :=
 Definition nontrivial_case (inp : list Z) : bool :=
   (0 <? Z.of_nat (length (eo_wevs (model_eobs (dec_einput inp))))).
 
+(* known finding D6 only when the implementation's WHOLE observable equals the faithful model's *)
 Definition finding_sig (inp obs : list Z) : Z :=
-  if prop_case inp obs =? 6 then 1 else 0.
+  if eq_listZ (run_case inp) obs && (prop_case inp obs =? 6) then 1 else 0.
 
 Require Extraction.
 Require Import ExtrOcamlBasic.
